@@ -68,6 +68,11 @@ class Case:
         """ran to completion (sanitizer reports are judged only by the properties that are about them)"""
         return self.x is not None and self.x.get("exit") == "0" and self.x.get("sig") == "0" and self.x.get("timeout") == "0"
 
+    @property
+    def skipped(self):
+        """not executed: the runner stopped after repeated hangs in this job"""
+        return self.x is not None and self.x.get("timeout") == "2"
+
     def status(self):
         x = self.x or {}
         return {"exit": int(x.get("exit", -1)), "sig": int(x.get("sig", -1)), "timeout": int(x.get("timeout", 0)),
